@@ -565,6 +565,9 @@ class Machine:
             return v
         if kind.startswith('PointerCoercion') or kind.startswith(('PtrToPtr', 'Transmute')):
             return v          # unsizing: &[T;N] -> &[T], &T -> &dyn Tr, fn item -> fn pointer keep the same model value
+        if kind.startswith(('PointerExposeProvenance', 'FnPtrToPtr')):
+            if isinstance(v, (Tok, FnItem)): return z3.BitVec('addr:%s' % v.name, BITS.get(ty, 64))
+            if z3.is_bv(v): return v
         raise Inconclusive('cast kind ' + kind)
 
     # ------------------------------------------------------------------ execution
